@@ -69,11 +69,15 @@ Definition f_mag (bits : Z) : Z := bits mod two63.
 Definition f_isnan (bits : Z) : bool := exp_mask <? f_mag bits.
 (* sign-magnitude key: IEEE "<" on non-NaN values is Z.lt on keys; -0 and +0 both map to 0 *)
 Definition f_key (bits : Z) : Z := if bits <? two63 then bits else - (f_mag bits).
+(* Go's own comparisons on float64 *)
 Definition f_lt (a b : Z) : bool := negb (f_isnan a) && negb (f_isnan b) && (f_key a <? f_key b).
-Definition f_eq (a b : Z) : bool := negb (f_isnan a) && negb (f_isnan b) && (f_key a =? f_key b).
-(* rankFloats: "if a < b Lesser; if a > b Greater; else Equal" *)
-Definition rank_float (a b : Z) : comparison :=
-  if f_lt a b then Lt else if f_lt b a then Gt else Eq.
+Definition f_eq_go (a b : Z) : bool := negb (f_isnan a) && negb (f_isnan b) && (f_key a =? f_key b).
+(* the collator's order on floats (after the fix recorded in known_findings.json): NaN is
+   ranked before every number and equal to any other NaN *)
+Definition f_ord (bits : Z) : Z := if f_isnan bits then - two63 - 1 else f_key bits.
+(* rankFloats: "if a < b Lesser; if a > b Greater; NaN first; else Equal" *)
+Definition rank_float (a b : Z) : comparison := Z.compare (f_ord a) (f_ord b).
+Definition f_eq (a b : Z) : bool := f_ord a =? f_ord b.
 
 (* ---------- coarse type names of getType, as their rank in byte-wise string order ---------- *)
 (* "array" < "boolean" < "byte" < "collection.array_" < "collection.association_" <
@@ -115,11 +119,19 @@ Fixpoint lexZ (a b : list Z) : comparison :=
 Definition rank_bool (a b : bool) : comparison :=
   match a, b with false, true => Lt | true, false => Gt | _, _ => Eq end.
 
-(* rankComplex: equal values are Equal, otherwise magnitude then phase (oracle fields) *)
+(* rankComplex: negative zeros normalized, then magnitude, phase (oracle fields, computed by
+   Go on the normalized value), real part, imaginary part *)
 Definition rank_complex (r1 i1 a1 p1 r2 i2 a2 p2 : Z) : comparison :=
-  if f_eq r1 r2 && f_eq i1 i2 then Eq
-  else if f_lt a1 a2 then Lt else if f_lt a2 a1 then Gt
-  else if f_lt p1 p2 then Lt else if f_lt p2 p1 then Gt else Eq.
+  match rank_float a1 a2 with
+  | Eq => match rank_float p1 p2 with
+          | Eq => match rank_float r1 r2 with
+                  | Eq => rank_float i1 i2
+                  | c => c
+                  end
+          | c => c
+          end
+  | c => c
+  end.
 
 (* results of a collator call *)
 Inductive res (A : Type) := R (a : A) | DepthPanic | OutOfFuel.
@@ -146,11 +158,21 @@ Definition keq (a b : val) : bool :=
   | VBool x, VBool y => Bool.eqb x y
   | VInt w1 x, VInt w2 y | VUint w1 x, VUint w2 y => (w1 =? w2) && (x =? y)
   | VByte x, VByte y | VRune x, VRune y => x =? y
-  | VFloat w1 x, VFloat w2 y => (w1 =? w2) && f_eq x y
-  | VComplex w1 r1 i1 _ _, VComplex w2 r2 i2 _ _ => (w1 =? w2) && f_eq r1 r2 && f_eq i1 i2
+  | VFloat w1 x, VFloat w2 y => (w1 =? w2) && f_eq_go x y
+  | VComplex w1 r1 i1 _ _, VComplex w2 r2 i2 _ _ => (w1 =? w2) && f_eq_go r1 r2 && f_eq_go i1 i2
   | VStr s, VStr t => list_eqb Z.eqb s t
   | VPtr i _, VPtr j _ => i =? j
   | _, _ => false
+  end.
+
+(* compareIntrinsics: Go "==" on identical dynamic types, except that floats and complex
+   numbers use the collator's own notion of equality (NaN equals NaN) *)
+Definition ieq (a b : val) : bool :=
+  match a, b with
+  | VFloat w1 x, VFloat w2 y => (w1 =? w2) && f_eq x y
+  | VComplex w1 r1 i1 a1 p1, VComplex w2 r2 i2 a2 p2 =>
+      (w1 =? w2) && comparison_eqb (rank_complex r1 i1 a1 p1 r2 i2 a2 p2) Eq
+  | _, _ => keq a b
   end.
 
 Fixpoint lookup_kv (k : val) (kvs : list (val * val)) : option val :=
@@ -296,7 +318,7 @@ Fixpoint compare (fuel : nat) (depth : nat) (a b : val) {struct fuel} : res bool
       if negb (tyrank a =? tyrank b) then R false else
       match a, b with
       | VBool _, _ | VInt _ _, _ | VUint _ _, _ | VByte _, _ | VRune _, _ | VFloat _ _, _
-      | VComplex _ _ _ _ _, _ | VStr _, _ => R (keq a b)          (* first.Interface() == second.Interface() *)
+      | VComplex _ _ _ _ _, _ | VStr _, _ => R (ieq a b)          (* compareIntrinsics *)
       | VPtr _ x, VPtr _ y => R (x =? y)                            (* Elem(): struct == struct *)
       | VNilSlice, VNilSlice | VNilMap, VNilMap => R true
       | VNilSlice, _ | VNilMap, _ | _, VNilSlice | _, VNilMap => R false
